@@ -420,8 +420,8 @@ fn main() {
         id: "C15",
         title: "TLS channels and servers authenticate the peer and insist on HTTP/2",
         scenarios: vec![
-            Scenario { name: "N-tls-matrix", engine: "N", run: run_matrix, quick: GRID * 2, thorough: GRID * 40, grid: GRID, what: "full matrix client roots x domain x server ALPN x assume_http2 x server client-auth x client identity (486 cells, enumerated completely, then again under further network schedules): tonic ClientTlsConfig against tonic ServerTlsConfig (ALPN h2) or against the harness's own rustls acceptor + raw h2 server (ALPN absent / http/1.1)" },
-            Scenario { name: "N-https-without-tls", engine: "N", run: run_https_without_tls, quick: 50, thorough: 1000, grid: 0, what: "https endpoint without any TLS configuration in front of a plaintext h2 server that would answer" },
+            Scenario { name: "N-tls-matrix", engine: "N", run: run_matrix, quick: GRID * 8, thorough: GRID * 400, grid: GRID, what: "full matrix client roots x domain x server ALPN x assume_http2 x server client-auth x client identity (486 cells, enumerated completely, then again under further network schedules): tonic ClientTlsConfig against tonic ServerTlsConfig (ALPN h2) or against the harness's own rustls acceptor + raw h2 server (ALPN absent / http/1.1)" },
+            Scenario { name: "N-https-without-tls", engine: "N", run: run_https_without_tls, quick: 400, thorough: 10_000, grid: 0, what: "https endpoint without any TLS configuration in front of a plaintext h2 server that would answer" },
         ],
         rule: "one run = one cell of the configuration matrix x network fragmentation/stall schedule x lazy/eager connect; every run non-trivial; distinct = distinct hash of structural tape decisions and ordered network-event kinds; the first 486 runs enumerate the matrix completely",
         real_vs_stub: vec![
